@@ -169,7 +169,12 @@ class C11(core.Check):
             '(c) histories of 3-9 (3%: 17-36) materialize(path) / materialize() calls over 2-5 Dataset objects of 1-2 '
             'constructor-argument families (1.5%: a family of ladder length) sharing a temp directory, with interleaved '
             'damage/remove of cache files and datasets whose own data frame is unusable, then conversion of new data by '
-            'every materialised dataset. Non-trivial: a round trip of a frame with >=1 stored element that loads, or a '
+            'every materialised dataset. Every file is named in one of 10 path shapes (bare file name / ./name / relative with a '
+            'directory / absolute / nested directory with blanks / pathlib.Path of each / another os.PathLike) with the file\'s directory '
+            'as working directory, the steps of one history naming the same file in different shapes; 20% of the save() round trips '
+            'find an older file at the path, 30% write the path a second time (same schema, other content) while the first loaded '
+            'result is held and re-read; extra_checks repeats that on files of 64 KiB .. 40 MiB (72 / 136 MiB at level 1 / 2). '
+            'Non-trivial: a round trip of a frame with >=1 stored element that loads, or a '
             'history with >=1 cache hit; distinct = distinct case hash')
     partial_notes = (
         'TRUNCATION CLAUSE (not a theorem): "a cache file cut short at any point raises" is a fact about '
@@ -205,6 +210,23 @@ class C11(core.Check):
 
     # ------------------------------------------------------------------ generation
     def generate(self, rng, n, tier):
+        for case in self.generate_base(rng, n, tier):
+            if case['kind'] == 'roundtrip':
+                # how the caller names the file (bare name / relative / absolute / PathLike), whether an older file already
+                # sits at that path, and whether the path is written a second time while the first result is still held
+                case['pathshape'] = rng.choice(io.PATH_SHAPES)
+                if rng.random() < .2 and not case.get('via'):
+                    # (a materialised dataset handed a path writes only when no file exists there: not combined with `via`)
+                    case['stale_file'] = rng.choice(['abs', 'same-shape'])
+                if rng.random() < .3:
+                    case['rewrite'] = True
+            else:
+                for st in case['steps']:
+                    if st.get('path') is not None and rng.random() < .6:
+                        st['shape'] = rng.choice(io.SAME_FILE_SHAPES)
+            yield case
+
+    def generate_base(self, rng, n, tier):
         from harness import stress
         lvl = self.level
         p_big = (.045, .08, .015)[min(lvl, 2)]          # frames / views at scale
@@ -281,10 +303,11 @@ class C11(core.Check):
         h = core.stable_hash(case)
         tmp = tempfile.mkdtemp(prefix='verif_c11_')
         try:
-            if case['kind'] == 'roundtrip':
-                out = self.real_roundtrip(case, tmp)
-            else:
-                out = self.real_history(case, tmp)
+            with io.in_dir(tmp):
+                if case['kind'] == 'roundtrip':
+                    out = self.real_roundtrip(case, tmp)
+                else:
+                    out = self.real_history(case, tmp)
         finally:
             shutil.rmtree(tmp, ignore_errors=True)
         # findings belong to THIS case (the engine may ask the oracle about it again later)
@@ -321,8 +344,8 @@ class C11(core.Check):
         import torch_frame
         F = self._findings
         tf0, stats = self.build_base(case)
-        path = os.path.join(tmp, 'tf.pt')
-        tf, do_save = self.derive_and_save(case, tf0, stats, path)
+        arg, path = io.path_arg(tmp, 'tf.pt', case.get('pathshape'))
+        tf, do_save = self.derive_and_save(case, tf0, stats, arg)
         self._info['view'] = _has_view(tf)
         self._info['rows'] = len(tf)
         self._info['facts'] = _storage_facts(tf)
@@ -332,11 +355,20 @@ class C11(core.Check):
         self._reqs[core.stable_hash(case)] = [] if too_big else \
             [{'cmd': 'roundtrip', 'frame': before[0], 'stats': before[1]}]
         out = {'wf': True}
+        if case.get('stale_file'):
+            # an older file (another table of the same schema) already sits at that path, written through its absolute
+            # path or through the very same path object
+            old_arg = path if case['stale_file'] == 'abs' else arg
+            io.quiet(torch_frame.save, io.scribbled_copy(tf), None, old_arg)
         try:
             io.quiet(do_save)
         except Exception as e:
             F.append(('save-raises', f'torch_frame.save raises {type(e).__name__}: {e}', 'a file', 'raises'))
             return {'save': 'raises'}
+        if not os.path.isfile(path):
+            F.append(('save-writes-nothing', f'save / materialize(path) returned normally for the path {arg!r} (working directory = '
+                      f'the directory of the file) but no file exists at {path}', 'a file', 'missing'))
+            return {'save': 'no-file'}
         raw = io.quiet(torch.load, path, weights_only=False)
         out['save'] = {'ok': io.canon_serialized(raw)}
         if (io.canon_frame(tf), io.canon_stats(stats)) != before:
@@ -345,7 +377,7 @@ class C11(core.Check):
             import warnings
             with warnings.catch_warnings(record=True) as wlist:
                 warnings.simplefilter('always')
-                tf2, stats2 = torch_frame.load(path)
+                tf2, stats2 = torch_frame.load(arg)
             self._info['fallback'] = any('Weights only load failed' in str(w.message) for w in wlist)
         except Exception as e:
             F.append(('load-raises', f'torch_frame.load raises {type(e).__name__} on the file save just wrote: {e}',
@@ -370,6 +402,25 @@ class C11(core.Check):
             tf3, _ = io.quiet(torch_frame.load, p2)
             for p in _frames_equal(tf3, tf2):
                 F.append(('view-vs-copy', 'view and canonical copy load differently: ' + p, None, None))
+        if case.get('rewrite'):
+            # the same path is written again (a refreshed table of the same schema and size) while the first result is held
+            keep = (io.canon_frame(tf2), io.canon_stats(stats2))
+            B = io.scribbled_copy(tf)
+            io.quiet(torch_frame.save, B, None, arg)
+            if (io.canon_frame(tf2), io.canon_stats(stats2)) != keep:
+                F.append(('rewrite-changes-earlier-result', 'a loaded frame / statistics changed when the path they were loaded '
+                          'from was written again', keep[0], io.canon_frame(tf2)))
+            try:
+                tf4, stats4 = io.quiet(torch_frame.load, arg)
+                for p in _frames_equal(B, tf4):
+                    F.append(('rewrite-stale-read', 'after writing a second frame to the same path, load returns something '
+                              'else: ' + p, io.canon_frame(B), io.canon_frame(tf4)))
+                if stats4 is not None:
+                    F.append(('rewrite-stale-read', 'after writing (frame, None) to the same path, load returns statistics',
+                              None, io.canon_stats(stats4)))
+            except Exception as e:
+                F.append(('rewrite-load-raises', f'load after the second save raises {type(e).__name__}: {e}', 'the second '
+                          'frame', 'raises'))
         return out
 
     def real_history(self, case, tmp):
@@ -393,7 +444,7 @@ class C11(core.Check):
         outs = []
         hits = 0
         for k, st in enumerate(case['steps']):
-            path = None if st.get('path') is None else os.path.join(tmp, st['path'])
+            arg, path = (None, None) if st.get('path') is None else io.path_arg(tmp, st['path'], st.get('shape'))
             if st['op'] == 'damage':
                 if os.path.isfile(path):
                     data = open(path, 'rb').read()
@@ -417,13 +468,13 @@ class C11(core.Check):
             before_bytes = open(path, 'rb').read() if (path and os.path.isfile(path)) else None
             with _Counter() as cnt:
                 try:
-                    io.quiet(ds.materialize, path=path)
+                    io.quiet(ds.materialize, path=arg)
                     res = 'ok'
                 except Exception as e:
                     res = 'raises'
                     exc = f'{type(e).__name__}: {e}'
             outs.append(res)
-            where = f'step {k} (dataset {i}, path {st.get("path")})'
+            where = f'step {k} (dataset {i}, path {st.get("path")} given as {st.get("shape", "abs")})'
             if not was_mat and fstate == 'intact':
                 hits += 1
                 if res != 'ok':
@@ -600,6 +651,11 @@ class C11(core.Check):
             labs += ['derive:' + l for l in io.derive_labels(case['derive'])] or ['derive:none']
             labs.append('rows:' + ('0' if self._info.get('rows') == 0 else '>0'))
             labs.append('is-view:' + str(bool(self._info.get('view'))))
+            labs.append('path-shape:' + case.get('pathshape', 'abs'))
+            if case.get('stale_file'):
+                labs.append('history:older-file-at-the-path(written-via-' + case['stale_file'] + ')')
+            if case.get('rewrite'):
+                labs.append('history:same-path-written-again-while-first-result-held')
             labs.append('save:' + ('ok' if isinstance(out.get('save'), dict) else 'raises'))
             labs.append('load:' + ('ok' if isinstance(out.get('load'), dict) else 'raises'))
             if 'fallback' in self._info:
@@ -631,6 +687,13 @@ class C11(core.Check):
             labs.append('cache-hits:' + str(min(self._info.get('hits', 0), 3)) + ('+' if self._info.get('hits', 0) > 3 else ''))
             if 'compute-raises' in self._info:
                 labs.append('fresh-computation-raises')
+            shapes_of = {}
+            for st in case['steps']:
+                if st['op'] == 'mat' and st.get('path'):
+                    labs.append('path-shape:' + st.get('shape', 'abs'))
+                    shapes_of.setdefault(st['path'], set()).add(st.get('shape', 'abs'))
+            if any(len(v) > 1 for v in shapes_of.values()):
+                labs.append('history:one-file-named-in-several-shapes')
             for st, o in zip(case['steps'], out['steps']):
                 if st['op'] == 'mat':
                     labs.append(f'mat:{"path" if st.get("path") else "nopath"}:{o}')
@@ -725,8 +788,49 @@ class C11(core.Check):
         return labs + sorted(acc)
 
     # ------------------------------------------------------------------ fault enumeration (truncation)
+    REWRITE_BYTES = {0: [1 << 16, 1 << 20, 8 << 20, 40 << 20], 1: [1 << 16, 1 << 20, 8 << 20, 40 << 20, 72 << 20],
+                     2: [1 << 16, 1 << 20, 8 << 20, 40 << 20, 72 << 20, 136 << 20]}
+
+    def rewrite_sweep(self, rng, report):
+        """file size is a size too: one path written twice with the first result held, for files from 64 KiB to 40 MiB
+        (72 MiB at level 1, 136 MiB in the thorough tier), each under another path shape"""
+        rows = []
+        shapes = list(dict.fromkeys(io.PATH_SHAPES))
+        rng.shuffle(shapes)
+        for k, nbytes in enumerate(self.REWRITE_BYTES[min(self.level, 2)]):
+            spec = {'kind': 'rewrite', 'bytes': nbytes, 'seed': rng.randrange(2 ** 31), 'shape': shapes[k % len(shapes)]}
+            try:
+                found = io.rewrite_scenario(spec)
+            except Exception as e:   # noqa
+                found = [('rewrite/raises', f'{type(e).__name__}: {str(e)[:200]}', 'no exception', 'raises')]
+            for key, what, exp, got in found[:2]:
+                report['violations'].append(core.Violation(key, f"{what} (path given as {spec['shape']})", dict(spec), exp, got,
+                                                           source='enumeration'))
+            rows.append({'file_bytes': spec.get('observed_file_bytes'), 'path_shape': spec['shape'], 'findings': len(found)})
+        report['extra']['rewrite_same_path'] = {'method': 'save(A, p); a = load(p); save(B, p); a is read again, load(p) == B, '
+                                                          'writes into a loaded frame stay there', 'files': rows}
+
+    def path_probes(self, report):
+        """path shapes that the unchanged library does not support: logged, not generated"""
+        import torch_frame
+        obs = {}
+        tmp = tempfile.mkdtemp(prefix='verif_c11_probe_')
+        try:
+            tf = torch_frame.TensorFrame({torch_frame.numerical: torch.zeros(2, 1)}, {torch_frame.numerical: ['x']}, None)
+            for name, pth in (('a directory that does not exist yet', os.path.join(tmp, 'missing', 'dir', 'tf.pt')),
+                              ('a path that is an existing directory', tmp)):
+                try:
+                    io.quiet(torch_frame.save, tf, None, pth)
+                    obs[f'save to {name}'] = 'writes' if os.path.isfile(pth) else 'returns without a file'
+                except Exception as e:   # noqa
+                    obs[f'save to {name}'] = f'raises {type(e).__name__}'
+        finally:
+            shutil.rmtree(tmp, ignore_errors=True)
+        report['extra'].setdefault('outside_domain_observations', {}).update(obs)
+
     def extra_checks(self, rng, tier, report):
         import torch_frame
+        self.rewrite_sweep(rng, report)
         tmp = tempfile.mkdtemp(prefix='verif_c11_trunc_')
         try:
             # a dataset with every stype (so every storage kind is in the file), written by materialize(path)
@@ -806,6 +910,7 @@ class C11(core.Check):
                     'feature-less TensorFrame({}, {}, num_rows=5) after save/load has num_rows': int(e1.num_rows)}
             except Exception as e:
                 report['extra']['outside_domain_observations'] = {'feature-less frame': f'raises {type(e).__name__}'}
+            self.path_probes(report)
             report['extra'].setdefault('outside_domain_observations', {})[
                 'TensorFrame.__eq__ is not reflexive when the target y holds a NaN (torch.allclose without equal_nan); '
                 'comparisons of such frames in this run, judged by the exact comparisons only'] = \
@@ -823,6 +928,14 @@ class C11(core.Check):
         import json
         doc = json.load(open(path))
         case = doc.get('case')
+        if isinstance(case, dict) and case.get('kind') == 'rewrite':
+            core.ensure_repo_import()
+            found = io.rewrite_scenario(dict(case))
+            for key, what, _, _ in found:
+                print(f'{key}: {what}  -> VIOLATED')
+            if not found:
+                print(f"one path written twice ({case['bytes']} bytes, shape {case['shape']}): every observation holds")
+            return 1 if found else 0
         if isinstance(case, dict) and case.get('kind') == 'truncation':
             import torch_frame
             core.ensure_repo_import()
